@@ -1220,7 +1220,152 @@ def c16(ctx):
         selftest(ctx, "TcpBridgeTrace", "TcpBridgeTrace.cfg", good[0], [("close-not-propagated", no_eof), ("eof-without-close", early_eof), ("connection-leaked", leak)])
 
 
-CHECKS = {"C15": c15, "C16": c16, "C14": c14, "C11": c11, "C12": c12, "C13": c13, "C10": c10, "C08": c08, "C20": c20, "C02": c02, "C03": c03, "C09": c09, "C01": c01, "C04": c04, "C07": c07, "C05": c05, "C06": c06}
+def app_cases(ctx, n=0):
+    gen = tlc_generate(ctx, "AppProxyGen", "AppProxyGen.cfg", "app_cases.json")
+    d = json.load(open(gen))
+    d["auth"] = [cap(c) for c in d["auth"]]
+    d["n"] = n
+    cpath = os.path.join(ctx.scratch, "app_cases_run.json")
+    json.dump(d, open(cpath, "w"))
+    return d, cpath
+
+
+def app_validate(ctx, events, label, kinds):
+    """one segment per judged case (preceded by the Backends announcement it depends on)"""
+    segs = []
+    last_b = None
+    for e in events:
+        if e.get("ev") == "Backends":
+            last_b = e
+        elif e.get("ev") in kinds:
+            seg = [{"ev": "Reset", "seg": e.get("sig", "case"), "sig": e.get("sig", "case")}]
+            if last_b is not None:
+                seg.append(last_b)
+            seg.append(e)
+            segs.append(seg)
+    fails = validate_segments(ctx, "AppProxyTrace", "AppProxyTrace.cfg", segs, batch=300)
+    for seg, idx, out, inv in fails:
+        e = seg[-1]
+        ev = {k: v for k, v in e.items() if k not in ("pid", "seq", "src")}
+        bk = [{k: (("".join(x) for x in v) if False else v) for k, v in b.items()} for b in (seg[1].get("list", []) if len(seg) > 2 else [])]
+        what = "%s case %s: %s is not allowed by AppProxy%s" % (label, e.get("sig"), json.dumps(ev, sort_keys=True)[:500],
+                                                              (" with backends " + json.dumps([{kk: ("|".join("".join(p) for p in vv) if kk == "prefixes" else vv) for kk, vv in b.items()} for b in bk])[:500]) if bk and e.get("ev") == "RouteCase" else "")
+        report_failure(ctx, e.get("sig", label), what, seg=seg, tlc_out=out[-2500:])
+    return segs, fails
+
+
+def app_model(ctx):
+    tlc_must_hold(ctx, "AppProxy", "AppProxy_MC.cfg")
+    tlc_must_fail(ctx, "AppProxy", "AppProxy_Attack_ErrSlots.cfg")
+
+
+def c17(ctx):
+    ctx.rule = ("cases = all 240 combinations of agent endpoint {pending, request, response} x caller identity {absent, wrong, right, other backend's agent, end user} x "
+                "backend named {own, other, unknown, missing} x request ID {own, other backend's, unknown, none} enumerated by TLC, against the real app (agent/default/"
+                "api services as processes) with two registered backends and a fake App Engine API; 18 admin-API calls (6 caller kinds x list/add/delete); distinct = combinations")
+    ctx.assumptions = ["OAuth identities are supplied through the fake API's GetOAuthUser (ticket header), App Engine users through X-AppEngine-User-* headers",
+                       "'learns nothing' = the reply contains neither request bytes nor request IDs; 'touches only that backend' = no datastore kind of another backend is accessed"]
+    app_model(ctx)
+    d, cpath = app_cases(ctx)
+    go_build_repo(ctx, "./app", "app")
+    go_build_harness(ctx)
+    events, _ = drive(ctx, "appauth", cases=cpath, timeout=3000)
+    segs, fails = app_validate(ctx, events, "access control", {"AgentCall", "AdminCall"})
+    ok = [s for s in segs if not any(s is f[0] for f in fails)]
+    denied = [s for s in ok if s[-1].get("ev") == "AgentCall" and s[-1]["obs"]["status"] == 401]
+    nonadmin = [s for s in ok if s[-1].get("ev") == "AdminCall" and not s[-1]["is_admin"]]
+    if denied and nonadmin:
+        def granted(seg):
+            seg[-1]["obs"]["status"] = 200
+            return True
+
+        def leaked(seg):
+            seg[-1]["obs"]["leaked"] = True
+            return True
+
+        def admin_ok(seg):
+            seg[-1]["status"] = 200
+            return True
+        selftest(ctx, "AppProxyTrace", "AppProxyTrace.cfg", denied[0], [("unauthorised-call-succeeds", granted), ("rejected-call-leaks", leaked)])
+        selftest(ctx, "AppProxyTrace", "AppProxyTrace.cfg", nonadmin[0], [("non-admin-api-call-succeeds", admin_ok)])
+    elif not fails:
+        raise Inconclusive("no denied call recorded")
+
+
+def c18(ctx):
+    n = 400 if ctx.tier == "thorough" else 40
+    ctx.rule = ("cases = seeded random backend sets (1-3 backends x 1-2 prefixes from {'', '/', '/a', '/a/', '/a/b', '/ab', '/b'} x end user {u1, u2, allUsers} x last-seen "
+                "{1 h, 6 min, 5 min+2 s, 5 min-30 s, 10 s ago}; domains exported by TLC) registered through the admin API of the real app, 3 (user, path) requests each, "
+                "routed backend read off the kind of the stored request entity; distinct = (backend set, user, path)")
+    ctx.assumptions = ["ties between equally long prefixes: any maximal candidate is accepted, but the same request must be routed the same way twice",
+                       "liveness is set by rewriting LastSeen of the backendTracker entity in the fake datastore"]
+    app_model(ctx)
+    d, cpath = app_cases(ctx, n)
+    go_build_repo(ctx, "./app", "app")
+    go_build_harness(ctx)
+    events, _ = drive(ctx, "approute", cases=cpath, timeout=3000)
+    segs, fails = app_validate(ctx, events, "routing", {"RouteCase"})
+    answers = {}
+    for e in events:
+        if e.get("ev") == "RouteCase":
+            answers["404" if e["got"] == "404" else "backend"] = answers.get("404" if e["got"] == "404" else "backend", 0) + 1
+    ctx.extra["routing_answers"] = answers
+    ok = [s for s in segs if not any(s is f[0] for f in fails)]
+    routed = [s for s in ok if s[-1]["got"] != "404" and len(s[1].get("list", [])) >= 2]
+    if routed:
+        def wrong_backend(seg):
+            others = [b["id"] for b in seg[1]["list"] if b["id"] != seg[-1]["got"]]
+            seg[-1]["got"] = others[0]
+            seg[-1]["repeat"] = others[0]
+            # make the other backend ineligible so that it cannot be a legitimate tie
+            for b in seg[1]["list"]:
+                if b["id"] == others[0]:
+                    b["prefixes"] = [["/", "z", "z"]]
+            return True
+
+        def routed_though_stale(seg):
+            for b in seg[1]["list"]:
+                if b["id"] == seg[-1]["got"]:
+                    b["live"] = False
+            return True
+        selftest(ctx, "AppProxyTrace", "AppProxyTrace.cfg", routed[0], [("routed-to-other-backend", wrong_backend), ("routed-to-stale-backend", routed_though_stale)])
+    elif not fails:
+        raise Inconclusive("no routed case with two backends recorded")
+
+
+def c19(ctx):
+    ctx.rule = ("cases = one relayed request per serialised request size in {0, 1, 1000, 999999, 1000000, 1000001, 1999999, 2000000, 2000001, 3500000} bytes (hit "
+                "exactly by calibrating the body length) and per response size class, two requests in flight answered in the opposite order, and the response call with "
+                "every subset of failing store writes {response, request}; sizes and subsets enumerated by TLC; distinct = sizes / subsets")
+    ctx.assumptions = ["the 504 path (30 s without response) is only exercised in the thorough tier", "hang = no answer within 8 s (a healthy call takes milliseconds)"]
+    app_model(ctx)
+    d, cpath = app_cases(ctx)
+    go_build_repo(ctx, "./app", "app")
+    go_build_harness(ctx)
+    events, _ = drive(ctx, "apprelay", cases=cpath, timeout=3000)
+    segs, fails = app_validate(ctx, events, "relay", {"RelayCase", "BlobCase", "FaultCase"})
+    ok = [s for s in segs if not any(s is f[0] for f in fails)]
+    relays = [s for s in ok if s[-1].get("ev") == "RelayCase"]
+    blobs = [s for s in ok if s[-1].get("ev") == "BlobCase" and s[-1]["n"] >= 1000000]
+    if relays and blobs:
+        def wrong_response(seg):
+            seg[-1]["resp_same"] = False
+            return True
+
+        def relisted(seg):
+            seg[-1]["relisted"] = True
+            return True
+
+        def parts(seg):
+            seg[-1]["parts"] = seg[-1]["parts"] + 1
+            return True
+        selftest(ctx, "AppProxyTrace", "AppProxyTrace.cfg", relays[0], [("client-gets-other-bytes", wrong_response), ("completed-request-listed-again", relisted)])
+        selftest(ctx, "AppProxyTrace", "AppProxyTrace.cfg", blobs[0], [("wrong-part-count", parts)])
+    elif not fails:
+        raise Inconclusive("relay cases missing")
+
+
+CHECKS = {"C17": c17, "C18": c18, "C19": c19, "C15": c15, "C16": c16, "C14": c14, "C11": c11, "C12": c12, "C13": c13, "C10": c10, "C08": c08, "C20": c20, "C02": c02, "C03": c03, "C09": c09, "C01": c01, "C04": c04, "C07": c07, "C05": c05, "C06": c06}
 
 if __name__ == "__main__":
     pid = sys.argv[1]
